@@ -87,8 +87,8 @@ type e2eEnv struct {
 	proto           string // binary | compact | json
 	pf              *frugal.FProtocolFactory
 	tr              frugal.FTransport
-	client          *simsvc.FSimSvcClient
-	client2         *simsvc.FSimSvcClient
+	client          *simsvc.FLeafClient
+	client2         *simsvc.FLeafClient
 	prov2Spec       []mwSpec
 	proc            frugal.FProcessor
 	plans           map[string]*callPlan
@@ -235,7 +235,7 @@ func (env *e2eEnv) start(procMW []frugal.ServiceMiddleware, provMW []frugal.Serv
 	env.pf = frugal.NewFProtocolFactory(protoFactory(env.proto))
 	env.plans = map[string]*callPlan{}
 	h := &simHandler{env: env}
-	env.proc = simsvc.NewFSimSvcProcessor(h, procMW...)
+	env.proc = simsvc.NewFLeafProcessor(h, procMW...)
 	switch env.kind {
 	case "adapter":
 		env.lst = newSimListener()
@@ -301,7 +301,7 @@ func (env *e2eEnv) start(procMW []frugal.ServiceMiddleware, provMW []frugal.Serv
 		return err
 	}
 	prov := frugal.NewFServiceProvider(env.tr, env.pf, provMW...)
-	env.client = simsvc.NewFSimSvcClient(prov, cliMW...)
+	env.client = simsvc.NewFLeafClient(prov, cliMW...)
 	return nil
 }
 
@@ -467,6 +467,16 @@ func (h *simHandler) Shapes(fctx frugal.FContext, d simsvc.Deep, o *simsvc.Odd, 
 	}
 	return p.ret.(simsvc.Deep), nil
 }
+func (h *simHandler) LeafPing(fctx frugal.FContext, s string) (string, error) {
+	p, err := h.enter(fctx, "leafPing", s)
+	if err != nil {
+		return "", err
+	}
+	if p.outcome == "ex1" {
+		return "", p.ret.(*simsvc.Denied)
+	}
+	return p.ret.(string), nil
+}
 func (h *simHandler) Many(fctx frugal.FContext, n int32) ([]*simsvc.Item, error) {
 	p, err := h.enter(fctx, "many", n)
 	if err != nil {
@@ -579,6 +589,8 @@ func (env *e2eEnv) invoke(p *callPlan) {
 	case "shapes":
 		a := p.args
 		p.gotRet, p.gotErr = c.Shapes(ctx, a[0].(simsvc.Deep), a[1].(*simsvc.Odd), a[2].(simsvc.Paint), a[3].(int16), a[4].(int8), a[5].(float64), a[6].(string), a[7].(string), a[8].([][]byte), a[9].(map[simsvc.Paint]string), a[10].(*simsvc.Choice))
+	case "leafPing":
+		p.gotRet, p.gotErr = c.LeafPing(ctx, p.args[0].(string))
 	case "many":
 		p.gotRet, p.gotErr = c.Many(ctx, p.args[0].(int32))
 	case "choose":
